@@ -8,6 +8,8 @@ class Lexer:
     @classmethod
     def parse(cls, expression, in_cell: Cell):
         tokens = []
+        # whitespace (spaces, tabs, line breaks) between tokens, before the first and after the last one is not significant
+        expression = expression.strip()
         while expression:
             for token_class in cls.TOKENS:
                 token, sub_expression = token_class.get(expression.lstrip(), in_cell)
